@@ -126,6 +126,9 @@ func TestWorker(t *testing.T) {
 		st := plan.Sched.Strategy
 		if plan.Sched.StallLen > 0 {
 			st = "stall"
+			if plan.Sched.Stall2Len > 0 {
+				st = "stall2"
+			}
 		}
 		agg.Strat[st+"/"+plan.Sched.Bias]++
 		if wr.Sample == nil {
